@@ -1140,10 +1140,15 @@ def process_fn(fn, spec, handle, stats, canary):
     for (fname, old, new) in spec.rewrites:
         if fname != name:
             continue
-        if old.startswith("reall:"):
-            # regex form applied to every match (at least one)
+        if old.startswith("reall:") or old.startswith("optreall:"):
+            # regex form applied to every match (`reall:` at least one; `optreall:` a pure normalisation of
+            # spelling that may have nothing to do)
+            opt_ = old.startswith("optreall:")
+            old = old[3:] if opt_ else old
             rx = re.compile(old[6:].strip())
             if not rx.search(body):
+                if opt_:
+                    continue
                 raise ExtractError("declared rewrite on %s no longer matches: %s" % (name, old))
             body, n_ = rx.subn(lambda mm: mm.expand(new), body)
             stats["declared_rewrites"] += n_
